@@ -30,6 +30,20 @@ FORMATS = {
     "gtf": dict(buffer=("bionumpy.io.delimited_buffers", "GTFBuffer"),
                 cols=[("chromosome", "id"), ("source", "str"), ("feature_type", "id"), ("start", "int"), ("stop", "int"), ("score", "str"),
                       ("strand", "strand"), ("phase", "str"), ("atributes", "str")]),
+    "bed12": dict(buffer=("bionumpy.io.delimited_buffers", "Bed12Buffer"),
+                  cols=[("chromosome", "id"), ("start", "int"), ("stop", "int"), ("name", "id"), ("score", "oint"), ("strand", "strand"),
+                        ("thick_start", "int"), ("thick_end", "int"), ("item_rgb", "str"), ("block_count", "int"),
+                        ("block_sizes", "ilist"), ("block_starts", "ilist")]),
+    "narrowpeak": dict(buffer=("bionumpy.io.delimited_buffers", "NarrowPeakBuffer"),
+                       cols=[("chromosome", "id"), ("start", "int"), ("stop", "int"), ("name", "id"), ("score", "oint"), ("strand", "strand"),
+                             ("signal_value", "float"), ("p_value", "float"), ("q_value", "float"), ("summit", "int")]),
+    "pairs": dict(buffer=("bionumpy.io.pairs", "PairsBuffer"),
+                  cols=[("read_id", "str"), ("chrom1", "id"), ("pos1", "int"), ("chrom2", "id"), ("pos2", "int"), ("strand1", "strand"),
+                        ("strand2", "strand")]),
+    # GFF3: same nine columns as GTF, comment lines may stand between the records (skel["comments"] = {row index: text})
+    "gff": dict(buffer=("bionumpy.io.delimited_buffers", "GFFBuffer"),
+                cols=[("chromosome", "id"), ("source", "str"), ("feature_type", "id"), ("start", "int"), ("stop", "int"), ("score", "str"),
+                      ("strand", "strand"), ("phase", "str"), ("atributes", "str")]),
 }
 
 
@@ -62,6 +76,9 @@ def declare_cells(V, skel, prefix="c"):
                         v = V.int(nm, 48, 57)
                 elif kind == "strand":
                     v = V.int(nm, 43, 46); V.assume(v.t != 44)
+                elif kind == "ilist":
+                    # comma separated integers: skel["lists"]["r_c"] = dict(widths=[..], trailing=bool) fixes where the commas are
+                    v = V.int(nm, 44, 44) if j in list_commas(skel, r, c) else V.int(nm, 48, 57)
                 elif kind == "float":
                     # digits with exactly one '.' at a skeleton-chosen position (skel["dots"][r] or middle)
                     dot = skel.get("dot", {}).get(f"{r}_{c}", w // 2 if w >= 3 else None)
@@ -71,6 +88,33 @@ def declare_cells(V, skel, prefix="c"):
                         v = V.int(nm, 48, 57)
                 else:
                     raise ValueError(kind)
+
+
+def list_spec(skel, r, c):
+    return skel["lists"][f"{r}_{c}"]
+
+
+def list_commas(skel, r, c):
+    sp = list_spec(skel, r, c)
+    pos, k = set(), 0
+    for i, w in enumerate(sp["widths"]):
+        k += w
+        if i < len(sp["widths"]) - 1 or sp.get("trailing"):
+            pos.add(k); k += 1
+    return pos
+
+
+def list_width(sp):
+    n = len(sp["widths"])
+    return sum(sp["widths"]) + (n - 1 if n else 0) + (1 if sp.get("trailing") and n else 0)
+
+
+def list_elements(sp, items):
+    """split the cell's items (terms or ints) into the elements' digit lists"""
+    out, k = [], 0
+    for w in sp["widths"]:
+        out.append(items[k:k + w]); k += w + 1
+    return out
 
 
 def cell(x, r, c, w, prefix="c"):
@@ -85,6 +129,8 @@ def content(skel, x, prefix="c"):
         out += list(h.encode()) + nl
     n = len(skel["rows"])
     for r, widths in enumerate(skel["rows"]):
+        if str(r) in skel.get("comments", {}):
+            out += list(skel["comments"][str(r)].encode()) + nl          # a comment line standing before record r
         for c, w in enumerate(widths):
             out += cell(x, r, c, w, prefix)
             out += [9] if c < len(widths) - 1 else []
@@ -110,6 +156,8 @@ def ref_value(kind, cellvars, signed=False, dot=None):
         return ref_int(ts, False)
     if kind == "strand":
         return z3.If(ts[0] == 43, 0, z3.If(ts[0] == 45, 1, 2))      # StrandEncoding code of + - . (one character)
+    if kind == "ilist":
+        return [ref_int(e, False) for e in list_elements(dot, ts)]      # `dot` carries the list spec for this kind
     if kind == "float":
         w = len(ts)
         if dot is None:
@@ -130,6 +178,8 @@ def py_value(kind, vals, signed=False, dot=None):
         return 0 if s == "." else int(s)
     if kind == "strand":
         return "+-.".index(s)
+    if kind == "ilist":
+        return [int(bytes(e).decode()) for e in list_elements(dot, list(vals))]
     if kind == "float":
         return float(s)
     raise ValueError(kind)
